@@ -128,7 +128,129 @@ let cx : ctx = {
     match Hashtbl.find_opt intern k with
     | Some i -> n_of_int i
     | None -> let i = Hashtbl.length intern + 1 in Hashtbl.add intern k i; n_of_int i);
+  drop_tail = (fun c b ->
+    let a = ask (Printf.sprintf "tail %s %s" (tok_of_comp c) (hex_of_bytes b)) in
+    n_of_hex a);
 }
+
+(* ---------- more conversions ---------- *)
+let z_of_hex (s : string) : z = match n_of_hex s with N0 -> Z0 | Npos p -> Zpos p
+let hex_of_z (x : z) : string = match x with Z0 -> "0" | Zpos p -> hex_of_n (Npos p) | Zneg p -> "-" ^ hex_of_n (Npos p)
+let f64_of_tok s = f64_of_bits (z_of_hex s)
+let tok_of_f64 f = hex_of_z (bits_of_f64 f)
+let ttype_of_tok s = match ttype_of_code (n_of_hex s) with Ok t -> t | _ -> failwith "bad tile type"
+let tok_of_ttype t = hex_of_n (ttype_code t)
+let compc_of_tok s = match comp_of_code (n_of_hex s) with Ok t -> t | _ -> failwith "bad compression code"
+let tok_of_compc c = hex_of_n (comp_code c)
+let bound_of_tok s =
+  if s = "u" then Unb else
+  let v = n_of_hex (String.sub s 1 (String.length s - 1)) in
+  if s.[0] = 'i' then Incl v else if s.[0] = 'e' then Excl v else failwith "bad bound"
+let range_of_tok s = match String.split_on_char '_' s with
+  | [a; b] -> { r_start = bound_of_tok a; r_end = bound_of_tok b }
+  | _ -> failwith "bad range"
+let kind (o : 'a outcome) : string = match o with Ok _ -> "ok" | Err _ -> "err" | Crash _ -> "crash"
+
+let cmp_n (a : n) (b : n) : int = compare (int_of_n a) (int_of_n b)   (* ids < 2^62 in sorted outputs, else hex compare *)
+let cmp_hexnum (a : string) (b : string) : int =
+  let la = String.length a and lb = String.length b in
+  if la <> lb then compare la lb else compare a b
+let sort_ids (l : n list) : string list = List.sort cmp_hexnum (List.map hex_of_n l)
+
+(* canonical operation log: writes and seeks only, contiguous writes merged *)
+let log_tok (evs : event list) : string =
+  let items = ref [] in   (* reversed list of (`W (pos,len) | `S pos) *)
+  List.iter (fun e -> match e with
+    | EvWrite (_, pos, bs) ->
+      let p = int_of_n pos and l = List.length bs in
+      (match !items with
+       | `W (p0, l0) :: r when p0 + l0 = p -> items := `W (p0, l0 + l) :: r
+       | _ -> items := `W (p, l) :: !items)
+    | EvSeek pos -> items := `S (int_of_n pos) :: !items
+    | _ -> ()) evs;
+  let strs = List.rev_map (fun it -> match it with
+    | `W (p, l) -> Printf.sprintf "w%x+%x" p l
+    | `S p -> Printf.sprintf "s%x" p) !items in
+  if strs = [] then "-" else String.concat "." strs
+
+let hdr_fields_tok (h : header) : string =
+  String.concat " " ([hex_of_n h.h_version; hex_of_n h.h_root_off; hex_of_n h.h_root_len; hex_of_n h.h_meta_off;
+    hex_of_n h.h_meta_len; hex_of_n h.h_leaf_off; hex_of_n h.h_leaf_len; hex_of_n h.h_data_off; hex_of_n h.h_data_len;
+    hex_of_n h.h_addressed; hex_of_n h.h_entries; hex_of_n h.h_contents; (if h.h_clustered then "1" else "0");
+    tok_of_compc h.h_icomp; tok_of_compc h.h_tcomp; tok_of_ttype h.h_ttype; hex_of_n h.h_minz; hex_of_n h.h_maxz;
+    tok_of_f64 h.h_min_lon; tok_of_f64 h.h_min_lat; tok_of_f64 h.h_max_lon; tok_of_f64 h.h_max_lat;
+    hex_of_n h.h_cz; tok_of_f64 h.h_clon; tok_of_f64 h.h_clat])
+let hdr_of_toks (t : string list) : header =
+  match t with
+  | [v; ro; rl; mo; ml; lo; ll; d_o; dl; ad; en; co; cl; ic; tc; tt; minz; maxz; f1; f2; f3; f4; cz; f5; f6] ->
+    { h_version = n_of_hex v; h_root_off = n_of_hex ro; h_root_len = n_of_hex rl; h_meta_off = n_of_hex mo;
+      h_meta_len = n_of_hex ml; h_leaf_off = n_of_hex lo; h_leaf_len = n_of_hex ll; h_data_off = n_of_hex d_o;
+      h_data_len = n_of_hex dl; h_addressed = n_of_hex ad; h_entries = n_of_hex en; h_contents = n_of_hex co;
+      h_clustered = (cl = "1"); h_icomp = compc_of_tok ic; h_tcomp = compc_of_tok tc; h_ttype = ttype_of_tok tt;
+      h_minz = n_of_hex minz; h_maxz = n_of_hex maxz; h_min_lon = f64_of_tok f1; h_min_lat = f64_of_tok f2;
+      h_max_lon = f64_of_tok f3; h_max_lat = f64_of_tok f4; h_cz = n_of_hex cz; h_clon = f64_of_tok f5;
+      h_clat = f64_of_tok f6 }
+  | _ -> failwith "bad header fields"
+
+let tiles_tok (l : (n * (n * n)) list) : string =
+  if l = [] then "-" else
+  let items = List.map (fun (id, (off, len)) -> (hex_of_n id, hex_of_n id ^ ":" ^ hex_of_n off ^ ":" ^ hex_of_n len)) l in
+  let items = List.sort (fun (a, _) (b, _) -> cmp_hexnum a b) items in
+  String.concat "," (List.map snd items)
+
+(* ---------- histories ---------- *)
+let op_of_tok (s : string) : op =
+  match String.split_on_char ':' s with
+  | ["a"; id; d] -> OAdd (n_of_hex id, bytes_of_hex d)
+  | ["r"; id] -> ORemove (n_of_hex id)
+  | ["g"; id] -> OGet (n_of_hex id)
+  | ["x"; x; y; z] -> OXyz (n_of_hex x, n_of_hex y, n_of_hex z)
+  | ["l"] -> OList
+  | ["n"] -> OCount
+  | ["s"; w; _r] -> OSave (w = "a")
+  | ["o"; _r; rg; b] -> OOpen (range_of_tok rg, bytes_of_hex b)
+  | ["w"; m; pos; pre] -> OWriteAt (m = "a", n_of_hex pos, bytes_of_hex pre)
+  | ["c"; c] -> OSetComp (comp_of_tok c)
+  | ["m"; m] -> OSetMeta (bytes_of_hex m)
+  | ["h"; tt; tc; minz; maxz; cz; f1; f2; f3; f4; f5; f6] ->
+    OSetHdr (ttype_of_tok tt, compc_of_tok tc, n_of_hex minz, n_of_hex maxz, n_of_hex cz,
+             f64_of_tok f1, f64_of_tok f2, f64_of_tok f3, f64_of_tok f4, f64_of_tok f5, f64_of_tok f6)
+  | ["q"] -> OGetHdr
+  | ["p"] -> OSnap
+  | _ -> failwith ("bad op " ^ s)
+
+let tile_res_tok (r : bytes option outcome) : string =
+  match r with
+  | Ok None -> "none"
+  | Ok (Some b) -> "t" ^ hex_of_bytes b
+  | Err _ -> "err"
+  | Crash _ -> "crash"
+
+let snap_tok (ids : (n * tile) list) (data : (n * bytes) list) (refs : (n * n list) list) : string =
+  let content h = match aget h data with Some b -> hex_of_bytes b | None -> "?" ^ hex_of_n h in
+  let t = List.map (fun (id, t) ->
+    (hex_of_n id, hex_of_n id ^ "=" ^ (match t with THash h -> content h | TOffLen (o, l) -> "@" ^ hex_of_n o ^ "+" ^ hex_of_n l))) ids in
+  let t = List.map snd (List.sort (fun (a, _) (b, _) -> cmp_hexnum a b) t) in
+  let d = List.sort compare (List.map (fun (_, b) -> hex_of_bytes b) data) in
+  let r = List.sort compare (List.map (fun (h, l) -> content h ^ "=" ^ String.concat "+" (sort_ids l)) refs) in
+  let j l = if l = [] then "-" else String.concat "," l in
+  "P" ^ j t ^ "/" ^ j d ^ "/" ^ j r
+
+let out_tok (o : out) : string =
+  match o with
+  | RUnit -> "-"
+  | RRes r -> kind r
+  | RTile r -> tile_res_tok r
+  | RIds l -> "L" ^ (let s = sort_ids l in if s = [] then "-" else String.concat "," s)
+  | RCount n -> "N" ^ hex_of_n n
+  | RSaved (b, r) -> "S" ^ (match b with Ok b -> hex_of_bytes b | Err _ -> "err" | Crash _ -> "crash") ^ "," ^ kind r
+  | RStream r -> (match r with
+      | Ok ((img, pos), log) -> "W" ^ hex_of_bytes img ^ "," ^ hex_of_n pos ^ "," ^ log_tok log
+      | Err _ -> "err" | Crash _ -> "crash")
+  | RHdr p -> "H" ^ String.concat ":" [tok_of_ttype p.p_ttype; tok_of_compc p.p_tcomp; tok_of_compc p.p_icomp;
+      hex_of_n p.p_minz; hex_of_n p.p_maxz; hex_of_n p.p_cz; tok_of_f64 p.p_min_lon; tok_of_f64 p.p_min_lat;
+      tok_of_f64 p.p_max_lon; tok_of_f64 p.p_max_lat; tok_of_f64 p.p_clon; tok_of_f64 p.p_clat; hex_of_bytes p.p_meta]
+  | RSnap (a, b, c) -> snap_tok a b c
 
 (* ---------- dispatch ---------- *)
 let run_case (toks : string list) : string =
@@ -148,6 +270,27 @@ let run_case (toks : string list) : string =
   | ["dir_find"; es; id] ->
     out_str (fun o -> match o with None -> "none" | Some e -> tok_of_entry e)
       (find_entry (entries_of_tok es) (n_of_hex id))
+  | ["tid"; z; x; y] -> out_str hex_of_n (tile_id (n_of_hex z) (n_of_hex x) (n_of_hex y))
+  | ["zxy"; id] -> out_str (fun ((z, x), y) -> hex_of_n z ^ " " ^ hex_of_n x ^ " " ^ hex_of_n y) (zxy max_z (n_of_hex id))
+  | ["hspec"; z; x; y] -> "ok " ^ hex_of_n (spec_tile_id (n_of_hex z) (n_of_hex x) (n_of_hex y))
+  | ["hdr_dec"; _mode; b] ->
+    out_str (fun (h, rest) -> hdr_fields_tok h ^ " " ^ Printf.sprintf "%x" (List.length rest)) (decode_header (bytes_of_hex b))
+  | "hdr_enc" :: _mode :: fields -> out_str hex_of_bytes (encode_header (hdr_of_toks fields))
+  | ["coord_enc"; f] -> "ok " ^ hex_of_z (stored_of_deg (f64_of_tok f))
+  | ["coord_dec"; i] ->
+    let zi = (if String.length i > 0 && i.[0] = '-' then (match z_of_hex (String.sub i 1 (String.length i - 1)) with Zpos p -> Zneg p | z -> z) else z_of_hex i) in
+    "ok " ^ tok_of_f64 (deg_of_stored zi)
+  | ["wdirs"; mode; c; ss; pos; pre; es] ->
+    let start = if ss = "-" then None else Some (n_of_hex ss) in
+    out_str (fun (st, leaf) -> hex_of_bytes st.ws_img ^ " " ^ hex_of_n st.ws_pos ^ " " ^ hex_of_bytes leaf)
+      (write_directories cx (is_async mode) (comp_of_tok c) (entries_of_tok es) start
+         { ws_img = bytes_of_hex pre; ws_pos = n_of_hex pos; ws_log = [] })
+  | ["rdirs"; _mode; c; ro; rl; lo; rg; img] ->
+    out_str tiles_tok (read_directories cx (comp_of_tok c) (bytes_of_hex img) (n_of_hex ro) (n_of_hex rl) (n_of_hex lo) (range_of_tok rg))
+  | ["hist"; _mode; ops] ->
+    let ops = List.map op_of_tok (String.split_on_char ';' ops) in
+    let (_, outs) = run cx (pm_new None) ops in
+    "ok " ^ String.concat "|" (List.map out_tok outs)
   | op :: _ -> "unsupported " ^ op
   | [] -> "unsupported"
 
